@@ -42,10 +42,20 @@ package alertsHandler
 
 // New state: Normal iff the condition did not hold, Pending/Firing otherwise;
 // a notification is attempted exactly when the new state is Firing or Normal.
+// The state becomes Firing only on the strength of the evaluation HISTORY (the
+// current and the N-1 previous evaluations held): the alert object an
+// evaluation receives is the one captured when its job was registered, so its
+// State field says nothing about the stored state.  Ghost firingByHistory: the
+// history test was made in this evaluation and said yes.
+//@ ghostdecl firingByHistory int
 //@ func handleAlertCondition
 //@   props C20
 //@   requires alertToEvaluate != nil
+//@   ghostinit ghost(0, "firingByHistory") == 0
+//@   site callret shouldUpdateAlertStateToFiring #1:
+//@     ghostset ghost(0, "firingByHistory") = ite(result, 1, 0)
 //@   site call updateAlertStateAndCreateAlertHistory #1:
+//@     assert [firing-only-when-the-history-of-evaluations-says-so] implies(arg1 == alertutils.Firing, ghost(0, "firingByHistory") == 1)
 //@     assert [normal-iff-not-matched] (arg1 == alertutils.Normal) == !isAlertConditionMatched
 //@     assert [matched-pending-or-firing] implies(isAlertConditionMatched, arg1 == alertutils.Pending || arg1 == alertutils.Firing)
 //@   site call NotifyAlertHandlerRequest #1:
